@@ -214,6 +214,13 @@ def _worker(args):
   from .profiles import get_profile
   faulthandler.enable()
   boot.boot()
+  try:
+    # a run that grows without bound gets a MemoryError inside its own process, long before the
+    # machine starts killing processes at random
+    import resource
+    resource.setrlimit(resource.RLIMIT_AS, (8 << 30, 8 << 30))
+  except Exception:     # pylint: disable=broad-except
+    pass
   profile = get_profile(profile_name)
   out = []
   for i in indices:
